@@ -174,7 +174,8 @@ fn line_text(rng: &mut crate::rng::Rng) -> String {
     let n = rng.below(6);
     let mut s = String::new();
     for _ in 0..n {
-        s.push_str(match rng.below(9) {
+        s.push_str(match rng.below(10) {
+            9 => if rng.chance(1, 2) { *rng.pick(gen::ASCII_EDGE) } else { *rng.pick(gen::WS) },
             0 => "\n",
             1 => "\n\n",
             2 => "\r\n",
@@ -562,7 +563,7 @@ pub fn c06(ctx: &mut Ctx) {
                 OfOut::Overflow => {
                     ctx.count("of_overflow_error");
                     // only the error itself is compared (integer kinds must not overflow: C04)
-                    ctx.case(Op { req: format!("{}|shapeonly", req), real: "overflow".into() }, desc);
+                    ctx.case(Op { req: format!("{}|shapeonly", req), real: "overflow;smawk=1".into() }, desc);
                 }
                 OfOut::Ok(lens) => {
                     if !is_partition(&lens, frs.len()) {
@@ -575,7 +576,7 @@ pub fn c06(ctx: &mut Ctx) {
                         ctx.fail("smawk shape contract (r j < j)", format!("{}: rows {:?}", desc, rows), None);
                     }
                     // model: back-tracking over the same rows must give the same lines
-                    ctx.case(Op { req: format!("{}|shapeonly", req), real: format!("ok:{}", crate::proto::enc_nats(&lens)) }, desc.clone());
+                    ctx.case(Op { req: format!("{}|shapeonly", req), real: format!("ok:{};smawk=1", crate::proto::enc_nats(&lens)) }, desc.clone());
                     if lens.len() >= 2 {
                         ctx.nontrivial(&desc);
                     }
